@@ -561,29 +561,24 @@ func specViolations(cfg *reqmodel.Cfg, x *reqmodel.Ctx, r *reqmodel.Request, obs
 		proto = "1.0"
 	}
 	if !ruleTouched("via") {
+		// the chain is ALL Via field lines combined with ", " (RFC 9110 5.3); several lines were the known
+		// class F11a until the modifier learnt to read them all: a lost line is a plain violation again
 		want := proto + " " + cfg.Tag
-		class := ""
-		if len(in["via"]) > 0 && !nominated["via"] { // a nominated Via is hop-by-hop: dropped, then the own element is added
-			want = strings.Join(in["via"], ", ") + ", " + want
-			if len(in["via"]) > 1 {
-				class = "multi-line-via"
-			}
+		if chain := strings.Join(in["via"], ", "); chain != "" && !nominated["via"] { // a nominated Via is hop-by-hop: dropped, then the own element is added
+			want = chain + ", " + want
 		}
 		if got := strings.Join(out["via"], ", "); got != want {
-			add("one Via element is appended after the existing ones", class, fmt.Sprintf("%q vs %q", got, want))
+			add("one Via element is appended after the existing ones", "", fmt.Sprintf("%q vs %q", got, want))
 		}
 	}
 	if !ruleTouched("x-forwarded-for") {
+		// all X-Forwarded-For lines count (formerly the known class F11b)
 		want := x.ClientIP
-		class := ""
-		if vin := nonEmpty(in["x-forwarded-for"]); len(vin) > 0 && !nominated["x-forwarded-for"] {
-			want = strings.Join(vin, ", ") + ", " + want
-			if len(in["x-forwarded-for"]) > 1 {
-				class = "multi-line-xff"
-			}
+		if chain := strings.Join(in["x-forwarded-for"], ", "); chain != "" && !nominated["x-forwarded-for"] {
+			want = chain + ", " + want
 		}
 		if got := strings.Join(out["x-forwarded-for"], ", "); got != want {
-			add("the client address is appended to X-Forwarded-For", class, fmt.Sprintf("%q vs %q", got, want))
+			add("the client address is appended to X-Forwarded-For", "", fmt.Sprintf("%q vs %q", got, want))
 		}
 	}
 	for _, k := range []string{"x-forwarded-proto", "x-forwarded-host", "x-forwarded-url"} {
@@ -645,13 +640,6 @@ func specViolations(cfg *reqmodel.Cfg, x *reqmodel.Ctx, r *reqmodel.Request, obs
 		if reqmodel.FieldsJSON(gotT) != reqmodel.FieldsJSON(wantT) {
 			add("a body of identical bytes and length", "", fmt.Sprintf("trailers %v vs %v", gotT, wantT))
 		}
-	}
-	return vs
-}
-
-func nonEmpty(vs []string) []string {
-	if len(vs) > 0 && vs[0] == "" {
-		return nil
 	}
 	return vs
 }
